@@ -22,7 +22,7 @@ Require Import Blots.Num Blots.gen.Builtins Blots.Ast Blots.Value Blots.Outcome 
                Blots.Env Blots.Eval Blots.BuiltinsHof Blots.Program Blots.EvalInst
                Blots.proofs.ExprInd Blots.proofs.ValueInd Blots.proofs.Frames Blots.proofs.StoreMono
                Blots.proofs.Scoping Blots.proofs.InstMono
-               Blots.proofs.C02Ren Blots.proofs.C02Sim Blots.proofs.C02Ops Blots.proofs.C02Twice.
+               Blots.proofs.C02Ren Blots.proofs.C02Sim Blots.proofs.C02Ops Blots.proofs.C02Keep Blots.proofs.C02Twice.
 Import ListNotations.
 Open Scope string_scope.
 Open Scope list_scope.
@@ -260,7 +260,6 @@ Definition let_abstraction_full_stmt : Prop :=
     gctx x s eA eB ->
     evalD release binop_impl builtin_impl d (st, fr) eA = (rA, cA) ->
     evalD release binop_impl builtin_impl d (st, fr) eB = (rB, cB) ->
-    old_names_kept st (fst cA) -> old_names_kept st (fst cB) ->
     osame rA rB.
 
 (* the head-context theorem for the evaluator of EvalInst.v *)
@@ -279,4 +278,20 @@ Proof.
   cbn [fst] in Hlen.
   exact (proj1 (let_abstraction_head release binop_impl builtin_impl ops_commute_inst d x s st st1 fr v
                   Hwf Hx Hs Hv Hlen Hk eA eB rA cA rB cB H HA HB)).
+Qed.
+
+(* with the repaired naming rule: no side condition on names *)
+Theorem let_abstraction_head_uncond : forall release d x s st st1 fr v eA eB rA cA rB cB,
+  frames_lt (length st) fr = true ->
+  evalD release binop_impl builtin_impl d (st, fr) (EId x) = (Ok v, (st, fr)) ->
+  evalD release binop_impl builtin_impl d (st, fr) s = (Ok v, (st1, fr)) ->
+  cell_free v = true ->
+  hctx x s eA eB ->
+  evalD release binop_impl builtin_impl d (st, fr) eA = (rA, cA) ->
+  evalD release binop_impl builtin_impl d (st, fr) eB = (rB, cB) ->
+  osame rA rB.
+Proof.
+  intros release d x s st st1 fr v eA eB rA cA rB cB Hwf Hx Hs Hv H HA HB.
+  destruct (store_keep_old_names _ _ (evalD_store_keep release d _ _ _ _ Hs)) as [_ Hk]. cbn [fst] in Hk.
+  exact (let_abstraction_head_inst release d x s st st1 fr v eA eB rA cA rB cB Hwf Hx Hs Hv Hk H HA HB).
 Qed.
